@@ -34,7 +34,8 @@ def main():
             results[s] = row
             hit = [p for p in PROPS if row[p]['exit'] == 1]
             found = [p for p in PROPS if row[p]['with_failing_input']]
-            print('%s raised by %s ; failing input found by %s' % (s, ','.join(hit) or '-', ','.join(found) or '-'), flush=True)
+            infra = [p for p in PROPS if row[p]['exit'] not in (0, 1)]
+            print('%s raised by %s ; failing input found by %s%s' % (s, ','.join(hit) or '-', ','.join(found) or '-', (' ; NO VERDICT from ' + ','.join(infra)) if infra else ''), flush=True)
         finally:
             sh(['git', '-C', REPO, 'checkout', '--', '.'])
     out = os.path.join(VERIF, 'seeded', 'results.json')
